@@ -112,7 +112,7 @@ Lemma refuted_2 : C20.wf witness2 = true /\ C20.kf witness2 = 2%N /\
   C20.spec witness2 (C20.o_final (C20.model witness2)) = false.
 Proof. vm_compute. auto. Qed.
 
-(* the stacked table of witness 1: every mountpoint of l2's stack carries two mounts *)
+(* the stacked table of witness 1: l1's import mountpoint carries two mounts *)
 Example witness1_final : has_dup (C20.o_final (C20.model witness1)) = true /\
   length (C20.o_final (C20.model witness1)) = 4%nat.
 Proof. vm_compute. auto. Qed.
@@ -135,3 +135,11 @@ Example mount_mount_hyps_sat :
   length (targets (code_b witness0)) = 3%nat /\
   tr_stacked (run_trace (run_of witness0)) = false.
 Proof. vm_compute. repeat split; eexists; reflexivity. Qed.
+
+(* the run of witness 1 records one stacking event: the second invocation mounts l1's import,
+   having read an empty table, after the first invocation made its three mounts *)
+Example witness1_events :
+  map (fun e => (se_first e, se_target e, se_seen e, map fst (se_since e)))
+      (run_events (C20.c_sched witness1) (C20.c_k0 witness1) (code_a witness1) (code_b witness1))
+  = [(false, bs "/b/layers/l1/build/proc", Some [], [true; true; true])].
+Proof. vm_compute. reflexivity. Qed.
